@@ -8,6 +8,7 @@ import XmppModel.Lemmas.NegotiateTerm
 import XmppModel.Lemmas.NegotiateDriver
 import XmppModel.Lemmas.NegotiateTee
 import XmppModel.Lemmas.NegotiateDyn
+import XmppModel.Lemmas.NegotiateDynAdv
 import XmppModel.Lemmas.NegotiateFeats
 import XmppModel.Generated.C01
 /-!
@@ -51,6 +52,25 @@ theorem C01_gen_mask_test_init : ∃ t, Generated.C01.maskTableInit = some t ∧
       ⟨0, ⟨2, 1⟩, BitVec.ofNat 8 row.2.1, BitVec.ofNat 8 row.2.2.1, true⟩ = row.2.2.2.1
       ∧ row.2.2.2.2 = row.2.2.2.1 :=
   ⟨_, rfl, rfl, by decide⟩
+
+/-- what `C01_gen_mask_ready` demands of one row -/
+def readyRowOk (row : Nat × Nat × Nat × Bool) : Bool :=
+  let f : Feature := ⟨0, ⟨2, 1⟩, BitVec.ofNat 8 row.2.1, BitVec.ofNat 8 row.2.2.1, true⟩
+  (eligible (BitVec.ofNat 8 row.1) f && eligible (BitVec.ofNat 8 row.1 ||| bReady) f) == row.2.2.2
+
+/-- **the Ready bit in the mask test** (review A, C01-5): the real code, on all 8 × 16 × 16 = 2048
+combinations of a start state over Secure, Authn, S2S and masks over Secure, Authn, **Ready**, S2S,
+through a two-feature initiator (a voluntary feature supplies `Ready`, then the mandatory feature
+with the masks under test is looked at in state `st ||| Ready`): it is negotiated iff the model's
+`eligible` held when the list was read (`st`) **and** holds when it is selected (`st ||| Ready`) — a
+feature prohibited by `Ready` (resource binding) is not run once the session is ready, one that
+needs `Ready` is never run during negotiation; a mask test that special-cases the ready bit breaks
+this theorem -/
+theorem C01_gen_mask_ready : ∃ t, Generated.C01.maskTableReady = some t ∧ t.length = 2048 ∧
+    ∀ row ∈ t, readyRowOk row = true := by
+  refine ⟨_, rfl, by decide +kernel, ?_⟩
+  have h : (Generated.C01.maskTableReady.getD []).all readyRowOk = true := by decide +kernel
+  exact fun row hr => List.all_eq_true.mp h row hr
 
 /-- … and `eligible` only looks at the bits the two masks name, so the table extends to every
 state: bits outside `necessary ||| prohibited` never matter -/
@@ -524,6 +544,21 @@ theorem C01_dyn_monotone {d : DConf} (h : ReachD F O st0 script picks d) : sub s
 
 theorem C01_dyn_ready {d : DConf} (h : ReachD F O st0 script picks d) (hd : d.c.pc = .done) :
     has d.c.st bReady = true := (invC_reachD h).doneReady hd
+
+/-- **what the initiator keeps of a features list, for every config function** (review A, C01-3;
+lifts `C01_cached_advertised`): every feature kept from a list read in state `st` is one the config
+function returns **for that state** (`F st` — not for an earlier state of the stream: the stale
+configuration of seeded C01-18 on the initiating side), had its masks satisfied when the list was
+read, and is named by a child of the list, which is an item of the peer script -/
+theorem C01_dyn_cached_advertised {d : DConf} (h : ReachD F O st0 script picks d) {st : St}
+    {fs : List Feature} {adv : List AdvItem} {es : List Entry} (he : Ev.listIn st fs adv es ∈ d.c.tr) :
+    (adv = [] ∨ Peer.adv adv ∈ script) ∧
+    ∀ f ∈ fs, f ∈ F st ∧ eligible st f = true ∧ ∃ req, AdvItem.feat f.name req ∈ adv :=
+  (invPD_reach h).inOK st fs adv es he
+
+/-- while a features list is being read the configuration in force is the one for the current state -/
+theorem C01_dyn_config_current {d : DConf} (h : ReachD F O st0 script picks d)
+    (hr : inRead d.c.pc = true) : d.cfg = F d.c.st := cfgRead_reachD h hr
 
 /-- non-vacuity, and the seeded scenario: a receiver whose config function offers `login` and
 `extra` before authentication, `login` and `final` after it; `login` is mandatory, sets `Authn` and
